@@ -819,6 +819,148 @@ def d6b_guard_completeness(chk: Check) -> None:
                            "accepts exactly -len <= {} < len".format(iv))
 
 
+def d11_filter_tests_yield_once(chk: Check) -> None:
+    """`*` and `**` followed by another segment test each candidate with
+    that next segment and hand the *candidate itself* on (the caller then
+    applies the next segment to it).  The test is existential: one match of
+    the next segment is enough, so the loop over the next segment's matches
+    is left after the first yield.  Without the `break` the candidate is
+    handed on once per match and every result below it appears that many
+    times."""
+    prog = chk.prog
+    chk.rule("C01-D11", "a loop over the next segment's matches that yields "
+             "the tested node itself (not the match) is left after the "
+             "first yield", floor=3)
+    n = 0
+    for q in ("Processor._get_nodes_by_traversal",
+              "Processor._get_nodes_by_match_all_filtered"):
+        fi = prog.func(q)
+        depth = fi.params()[3]
+        for loop in walk_local(fi.node):
+            if not (isinstance(loop, ast.For) and
+                    isinstance(loop.iter, ast.Call) and
+                    src(loop.iter.func).endswith("_get_nodes_by_path_segment")
+                    and len(loop.iter.args) >= 3 and
+                    src(loop.iter.args[2]) != depth):
+                continue
+            tnames = {x.id for x in ast.walk(loop.target)
+                      if isinstance(x, ast.Name)}
+            ys = [y for st in loop.body for y in ast.walk(st)
+                  if isinstance(y, ast.Yield) and y.value is not None]
+            subject_yields = []
+            for y in ys:
+                # names used as the *node* of the yielded record
+                first = y.value.args[0] if isinstance(y.value, ast.Call) \
+                    and y.value.args else y.value
+                used = {x.id for x in ast.walk(first)
+                        if isinstance(x, ast.Name)}
+                if not (used & tnames):
+                    subject_yields.append(y)
+            if not subject_yields:
+                continue
+            n += 1
+            text = "{}: test by {}".format(fi.short, src(loop.iter)[:50])
+            last = loop.body[-1]
+            if isinstance(last, (ast.Break, ast.Return)):
+                chk.ok("C01-D11", fi, loop, text, "left after the first "
+                       "match")
+            else:
+                chk.fail("C01-D11", fi, loop, text,
+                         "the tested node is yielded once per match of the "
+                         "next segment: the caller applies that segment to "
+                         "each copy, so every result below the node is "
+                         "reported several times")
+    if n < 3:
+        raise AnalysisError("filter-test loops not found ({})".format(n))
+
+
+def d12_filtered_star_kinds(chk: Check) -> None:
+    """`*` has two handlers: one for the last segment (every child) and one
+    for `*` followed by a segment (every child with a match of that
+    segment).  Both walk the children of the same kinds of container: a
+    kind the filtered handler has no branch for yields nothing, so `s.*`
+    finds the members of a set and `s.*[.^x]` finds none."""
+    prog = chk.prog
+    chk.rule("C01-D12", "the filtered `*` handler has a branch for every "
+             "container kind the unfiltered one has", floor=3)
+    def kinds(q: str) -> Set[str]:
+        fi = prog.func(q)
+        data = fi.params()[1]
+        out: Set[str] = set()
+        for n in walk_local(fi.node):
+            if isinstance(n, ast.If) and isinstance(n.test, ast.Call) and \
+                    src(n.test.func) == "isinstance" and \
+                    src(n.test.args[0]) == data and any(
+                        isinstance(x, (ast.For, ast.Yield))
+                        for st in n.body for x in ast.walk(st)):
+                spec = n.test.args[1]
+                elts = spec.elts if isinstance(spec, ast.Tuple) else [spec]
+                out |= {src(e) for e in elts}
+        return out
+    from sa.ladders import EXTERNAL_BASES
+    un = kinds("Processor._get_nodes_by_match_all_unfiltered")
+    fl = kinds("Processor._get_nodes_by_match_all_filtered")
+    fi = prog.func("Processor._get_nodes_by_match_all_filtered")
+    if len(un) < 3:
+        raise AnalysisError("container branches of the unfiltered `*` "
+                            "handler: {}".format(sorted(un)))
+    for k in sorted(un):
+        text = "filtered `*`: branch for {}".format(k)
+        if k in fl or set(EXTERNAL_BASES.get(k, ())) & fl:
+            chk.ok("C01-D12", fi, fi.node, text, "present")
+        else:
+            chk.fail("C01-D12", fi, fi.node, text,
+                     "`*` followed by another segment has no branch for {}: "
+                     "children of such a container are found by a final `*` "
+                     "but never by `*` plus a filter".format(k))
+
+
+def d5b_scalars_have_no_attributes(chk: Check) -> None:
+    """`[name=value]` on a scalar: a scalar has no attribute `name`, so the
+    plain search does not select it (and the inverted one does).  Only the
+    attribute `.` -- the node itself -- is compared with the term.  A scalar
+    branch that ignores the attribute selects, under `**`, every scalar
+    equal to the term whatever key it sits under."""
+    prog = chk.prog
+    chk.rule("C01-D5b", "the scalar branch of the search handler compares "
+             "the node with the term only for the attribute `.`", floor=1)
+    fi = prog.func("Processor._get_nodes_by_search")
+    data = fi.params()[1]
+    attr = None
+    for a in walk_local(fi.node):
+        if isinstance(a, ast.Assign) and isinstance(a.value, ast.Attribute) \
+                and a.value.attr == "attribute":
+            attr = src(a.targets[0])
+    if attr is None:
+        raise AnalysisError("attribute role of the search handler not found")
+    sites = []
+    for c in walk_local(fi.node):
+        if isinstance(c, ast.Call) and \
+                src(c.func).endswith("search_matches") and \
+                len(c.args) == 3 and src(c.args[2]) == data:
+            sites.append(c)
+    if not sites:
+        raise AnalysisError("scalar branch of the search handler not found")
+    for c in sites:
+        dot = lambda e: isinstance(e, ast.Compare) and len(e.ops) == 1 and \
+            isinstance(e.ops[0], ast.Eq) and \
+            {src(e.left), src(e.comparators[0])} == {attr, "'.'"}
+        p_ = parent(c)
+        conj = isinstance(p_, ast.BoolOp) and isinstance(p_.op, ast.And) and \
+            any(dot(v) for v in p_.values)
+        fact = any(f.kind == "cond" and f.pol and dot(f.expr)
+                   for f in facts_at(c))
+        text = "search_matches(method, term, {})".format(data)
+        if conj or fact:
+            chk.ok("C01-D5b", fi, c, text, "only for the attribute `.`")
+        else:
+            chk.fail("C01-D5b", fi, c, text,
+                     "the node itself is compared with the term whatever "
+                     "attribute the search names: `x[name=5]` selects the "
+                     "scalar 5, and `/**[high=100.0]` selects any scalar "
+                     "100.0 (the value of `low`, say)")
+
+
 def run(chk: Check) -> None:
     d6b_guard_completeness(chk)
     d1_dispatch(chk)
@@ -830,6 +972,9 @@ def run(chk: Check) -> None:
     d4_inversion(chk)
     d4c_verdict_per_element(chk)
     d4d_verdict_is_a_comparison(chk)
+    d11_filter_tests_yield_once(chk)
+    d12_filtered_star_kinds(chk)
+    d5b_scalars_have_no_attributes(chk)
     from rules.c08 import d12_quoted_text_is_literal
     d12_quoted_text_is_literal(chk, "C01-D9")
     d5_haystack(chk)
